@@ -205,6 +205,10 @@ func vBadKeyText(id, format string) string {
 		switch id {
 		case "empty":
 			return ""
+		case "blank":
+			return " \t \n"
+		case "padonly":
+			return "===="
 		case "truncated":
 			return good.ssh[:len(good.ssh)/2]
 		case "retagged":
@@ -239,6 +243,10 @@ func vBadKeyText(id, format string) string {
 		switch id {
 		case "empty":
 			return ""
+		case "blank":
+			return " \t \n"
+		case "padonly":
+			return "===="
 		case "truncated":
 			return good.pem[:len(good.pem)/2]
 		case "retagged":
@@ -263,6 +271,10 @@ func vBadKeyText(id, format string) string {
 		switch id {
 		case "empty":
 			return ""
+		case "blank":
+			return " \t "
+		case "padonly":
+			return "=="
 		case "truncated":
 			return enc(good.der[:len(good.der)/2])
 		case "retagged":
